@@ -43,6 +43,28 @@ def jsonMoney (halfAway : Bool) (x : Rat) (scale : Nat) (literal : String) : Str
     let a := p.natAbs
     (if p < 0 then "-" else "") ++ toString (a / 100) ++ "." ++ pad2 (a % 100)
 
+/-- the value in units of 10⁻ᵏ after `round_dp_with_strategy(k, MidpointAwayFromZero)` -/
+def minorUnits (k : Nat) (x : Rat) : Int :=
+  let s := rabs (x * pow10 k)
+  let fl : Int := s.floor
+  let r : Int := if s - (fl : Rat) ≥ 1/2 then fl + 1 else fl
+  if x < 0 then -r else r
+
+def padLeft (n : Nat) (s : String) : String := String.ofList (List.replicate (n - s.length) '0') ++ s
+
+/-- `format_decimal_with_precision`: rounded half away from zero to `k` decimals, exactly `k` shown;
+    a value that rounds to zero is shown without a sign -/
+def fmtFixed (k : Nat) (x : Rat) : String :=
+  let u := minorUnits k x
+  let a := u.natAbs
+  (if u < 0 then "-" else "") ++ toString (a / 10 ^ k) ++ (if k = 0 then "" else "." ++ padLeft k (toString (a % 10 ^ k)))
+
+/-- `format_currency_amount`: GBP as `£` with separators, any other currency as the amount rounded to
+    that currency's minor units followed by its code. `minor` = ISO 4217 exponent (a parameter: the
+    currency table is data of the `iso_currency` crate) -/
+def fmtCurrencyAmount (code : String) (minor : Nat) (x : Rat) : String :=
+  if code = "GBP" then fmtGbp x else fmtFixed minor x ++ " " ++ code
+
 /-- `format_tax_year` -/
 def fmtTaxYear (y : Nat) : String := s!"{y}/{pad2 ((y + 1) % 100)}"
 
